@@ -108,8 +108,14 @@ std::string mep_content(const i_mep &m)
   return r;
 }
 
-// own text serialisation in the format load() reads (exact parameters)
-std::string mep_text(const i_mep &m)
+bool par_gene(const gene &g)
+{
+  return g.sym->terminal() && terminal::cast(g.sym)->parametric();
+}
+
+// own text serialisation in the format load() reads (exact parameters).  Text cannot carry
+// inf / NaN: with `placeholder` such parameters are written as 0 (see mep_rebuild)
+std::string mep_text(const i_mep &m, bool placeholder = false)
 {
   std::ostringstream o;
   o << m.age() << '\n' << m.size() << ' ' << m.categories() << '\n';
@@ -118,8 +124,9 @@ std::string mep_text(const i_mep &m)
     {
       const gene &g(m[{i, c}]);
       o << g.sym->opcode();
-      if (g.sym->terminal() && terminal::cast(g.sym)->parametric())
-        o << ' ' << std::setprecision(17) << g.par;
+      if (par_gene(g))
+        o << ' ' << std::setprecision(17)
+          << (placeholder && !std::isfinite(g.par) ? 0.0 : g.par);
       for (std::size_t a(0); a < g.args.size(); ++a) o << ' ' << g.args[a];
       o << '\n';
     }
@@ -129,9 +136,19 @@ std::string mep_text(const i_mep &m)
 
 bool mep_rebuild(const i_mep &m, i_mep *out)
 {
-  std::istringstream in(mep_text(m));
+  bool finite(true);
+  for (index_t i(0); i < m.size(); ++i)
+    for (category_t c(0); c < m.categories(); ++c)
+      finite = finite && (!par_gene(m[{i, c}]) || std::isfinite(m[{i, c}].par));
+
+  std::istringstream in(mep_text(m, !finite));
   i_mep f;
   if (!f.load(in, prob.sset)) return false;
+  if (!finite)   // non-finite parameters are installed gene by gene in the fresh object
+    for (index_t i(0); i < m.size(); ++i)
+      for (category_t c(0); c < m.categories(); ++c)
+        if (par_gene(m[{i, c}]) && !std::isfinite(m[{i, c}].par))
+          f = f.replace({i, c}, m[{i, c}]);
   *out = f;
   return true;
 }
